@@ -292,29 +292,54 @@ theorem astep_dLoadEntry {n : Nat} (ih : AllAbsent cfg name0 s0 n) (nm : Name) (
     SpecA s0 (dLoadEntry (n+1) cfg nm) := by
   intro s hs
   simp only [dLoadEntry, wp_bind, wp_getSt]
-  cases hg : s.get .d (keyOf nm) with
-  | some e =>
-    simp only [wp_pure]
-    refine ⟨hs, fun d h => ?_⟩
-    have : e = some d := by injection h
-    subst this
-    exact noDef_of_frame h0 hs.2 .d nm d hr hg
-  | none =>
+  -- the body after the cache test, for an own entry that is absent or a recorded miss
+  have hbody : ∀ own : Option Entry, (∀ d, own ≠ some (some d)) →
+      wp (do
+        let r ← dFind n cfg nm
+        let st ← getSt
+        match r, st.get .d (keyOf nm) with
+        | some (some d), some (some d') =>
+          if d = d' then pure (some (some d))
+          else do
+            let e ← setEntry .d (keyOf nm) (some d)
+            pure (some e)
+        | some (some d), _ => do
+          let e ← setEntry .d (keyOf nm) (some d)
+          pure (some e)
+        | _, _ =>
+          match own with
+          | none => do
+            let e ← setEntry .d (keyOf nm) none
+            pure (some e)
+          | some o => pure (some o)) (fun r s' => InvA s0 s' ∧ ∀ d, r ≠ some (some d)) (InvA s0) s := by
+    intro own hown
     simp only [wp_bind]
     refine wp_mono (ih.dFind nm hr s hs) ?_ (fun _ h => h)
     intro r s1 ⟨hs1, hr1⟩
     simp only [wp_getSt]
-    have hgen : wp (do
-        let e ← setEntry .d (keyOf nm) none
-        pure (some e)) (fun r s' => InvA s0 s' ∧ ∀ d, r ≠ some (some d)) (InvA s0) s1 := by
-      simp only [wp_bind]
-      refine wp_mono (absent_setEntry h0 hs1 .d nm hr) ?_ (fun _ h => h)
-      intro e s2 ⟨hs2, he⟩
-      exact ⟨hs2, fun d h => by rw [he] at h; cases h⟩
+    have hgen : wp (match own with
+        | none => do
+          let e ← setEntry .d (keyOf nm) none
+          pure (some e)
+        | some o => pure (some o)) (fun r s' => InvA s0 s' ∧ ∀ d, r ≠ some (some d)) (InvA s0) s1 := by
+      cases own with
+      | none =>
+        simp only [wp_bind]
+        refine wp_mono (absent_setEntry h0 hs1 .d nm hr) ?_ (fun _ h => h)
+        intro e s2 ⟨hs2, he⟩
+        exact ⟨hs2, fun d h => by rw [he] at h; cases h⟩
+      | some o =>
+        refine ⟨hs1, fun d h => ?_⟩
+        have : o = some d := by injection h
+        exact hown d (by rw [this])
     match r, hr1, s1.get .d (keyOf nm) with
     | some (some d), hr1, _ => exact absurd rfl (hr1 d)
-    | some none, _, _ => simpa only [wp_bind, Option.getD] using hgen
-    | none, _, _ => simpa only [wp_bind, Option.getD] using hgen
+    | some none, _, _ => exact hgen
+    | none, _, _ => exact hgen
+  match hg : s.get .d (keyOf nm) with
+  | some (some d) => exact absurd hg (noDef_of_frame h0 hs.2 .d nm d hr)
+  | some none => exact hbody (some none) (fun d h => by cases h)
+  | none => exact hbody none (fun d h => by cases h)
 
 theorem allAbsent : ∀ n, AllAbsent cfg name0 s0 n
   | 0 => by
